@@ -345,8 +345,14 @@ class Run:
                 if self.prop == "C16":
                     self.v("exception_create:" + type(e).__name__, -1, msg=str(e)[:300], tb=traceback.format_exc()[-800:])
                 return False
-            if self.prop == "C16" and not self.ref.consistent:
-                self.v("inconsistent_not_refused", -1, facts=facts, extended=ext)
+            if not self.ref.consistent:
+                if self.prop == "C16" and facts:
+                    # "an unsatisfiable combination [of base and facts] is refused"
+                    self.v("inconsistent_not_refused", -1, facts=facts, extended=ext)
+                else:
+                    # a base that is inconsistent for the chosen mode WITHOUT facts is outside the
+                    # statement ("for every consistent belief base"): nothing to check
+                    self.S.probe("out_of_domain_base")
                 return False
         elif self.kind == "crep":
             try:
@@ -984,7 +990,7 @@ def _needs_helper(doc):
 def plan_interrupts(doc, counts, rng):
     plan = doc.get("fault_plan") or {}
     out = []
-    cand = [(o, c) for (o, w, site), c in sorted(counts.items()) if site == "z3.check" and o >= 0 and o < len(doc["ops"]) and c > 0]
+    cand = [(o, c) for (o, w, site), c in sorted(counts.items()) if site == "z3.check" and o >= 0 and o < len(doc["ops"]) and c > 0 and doc["ops"][o]["op"] != "rebuild"]
     for _ in range(int(plan.get("n", 0))):
         if not cand:
             break
@@ -1319,7 +1325,7 @@ def generate(prop, verif_seed, idx, tier="quick", cls=None):
                 obj2["facts"] = [_gen_fact(g, sig2)]
             doc["obj2"] = obj2
             for op in ops:
-                if op["op"] != "saveload" and g.random() < 0.45:
+                if op["op"] not in ("saveload", "rebuild") and g.random() < 0.45:
                     op["on"] = 1
         if cls == "interrupt":
             doc["fault_plan"] = {"n": g.choice([1, 2, 3])}
